@@ -112,6 +112,7 @@ func cmdRun(args []string) {
 	hdir := fs.String("harness-dir", "/verif/harness", "harness dir")
 	noint := fs.Bool("no-int", false, "disable integer mode")
 	native := fs.Bool("native", false, "replay violations natively")
+	maxPaths := fs.Int("max-paths", 0, "stop after this many paths")
 	prefix := fs.String("prefix", "", "DFS prefix")
 	stubs := fs.String("stubs", "", "fn=replacement,...")
 	sortFront := fs.Int("sort-front-above", 0, "contract model (front element only) for sort.Slice above this length")
@@ -134,7 +135,7 @@ func cmdRun(args []string) {
 		os.Exit(2)
 	}
 	knownOpen, _ := loadKnown()
-	res := sym.RunJob(p, sym.Job{Pkg: full, Harness: *harness, Args: iargs, Prefix: parseInts(*prefix), Cfg: sym.JobConfig{Stubs: parseStubs(*stubs), ShuffleSwaps: *swaps, SortFrontOnlyAbove: *sortFront, KnownOpen: knownOpen, NoMerge: *nomerge, NoIntMode: *noint, MapOrder: *maporder, SampleEvery: 1, MaxSamples: 3}}, *solver, 60000)
+	res := sym.RunJob(p, sym.Job{Pkg: full, Harness: *harness, Args: iargs, Prefix: parseInts(*prefix), Cfg: sym.JobConfig{MaxPaths: *maxPaths, Stubs: parseStubs(*stubs), ShuffleSwaps: *swaps, SortFrontOnlyAbove: *sortFront, KnownOpen: knownOpen, NoMerge: *nomerge, NoIntMode: *noint, MapOrder: *maporder, SampleEvery: 1, MaxSamples: 3}}, *solver, 60000)
 	res.Functions = nil
 	out, _ := json.MarshalIndent(res, "", " ")
 	fmt.Println(string(out))
